@@ -22,6 +22,14 @@
       command that some target keeps waiting for its time-out, or when the executor / agent of a critical live task
       was lost during the request (`Trans.controlStep`: the state in the reply of a request that succeeded).
 
+  Offers that come late: an optional second element `(offers (h…) (h…) …)` lists, per offers round after DEPLOY revived
+  offers, the hosts whose offer is missing (Model/DeployAttempts.lean). The model's acquireTasks (`Trans.acquire
+  AcqCfg.code`) is run first; everything else — the environment choices above included — is evaluated on the workflow it
+  leaves behind, the NewEnvironment observation carries the attempts `(att (i…) …)`, and the verdict is `Trans.judgeO`
+  (the workflow as offered in the last round that took place, plus the clause about the attempts). A fifth environment
+  choice exists only here: the verdict of an offers round lost on its way to acquireTasks (`OWorkflow.verdictLost`,
+  finding deploy_verdict_lost) — considered only when the observation carries the harness' attestation `verdict-lost`.
+
   Executor / agent loss: an outcome may be written `(xfail BASE WHEN UPD)` / `(afail BASE WHEN UPD)` (BASE = ok | stay |
   err | silent, WHEN = before | after, UPD = 1 | 0): the executor / agent of that task is lost while the command is
   outstanding. The core runs one executor per agent, so every task on the same host is hit; tasks on that host without
@@ -86,23 +94,47 @@ def parseStep (hosts : List String) : SExp → Option SStep
     pure (.ctl (← Ev.parse? e) (ms.map (·.1)) false (if ls.any (·.isSome) then collateral hosts ls else []))
   | _ => none
 
-def parseScenario (x : SExp) : Option (Cfg × Scenario) :=
-  let go (cfg : Cfg) : List SExp → Option (Cfg × Scenario)
-    | .list (.atom "wf" :: calls :: tasks) :: steps => do
+/-- "h1" → 1, "h2" → 2. -/
+def hostNum (h : String) : Nat := ((h.drop 1).toNat?).getD 0
+
+def parseRound : SExp → Option Round
+  | .list hs => hs.mapM? (fun h => match h with | .atom a => some (hostNum a) | _ => none)
+  | _ => none
+
+/-- The offers rounds of a scenario with an `offers` element: host number of every task's role, missing hosts per round. -/
+structure Offers where
+  hosts : List Nat
+  rounds : List Round
+
+def parseScenario (x : SExp) : Option (Cfg × Scenario × Option Offers) :=
+  let go (cfg : Cfg) : List SExp → Option (Cfg × Scenario × Option Offers)
+    | .list (.atom "wf" :: calls :: tasks) :: rest => do
       let ths ← tasks.mapM? parseTask
       let ts := ths.map (·.1)
       let wf : Workflow := { calls := ← calls.nat?, tasks := ts }
+      let (offers, steps) ← (match rest with
+        | .list (.atom "offers" :: rs) :: steps => do
+          pure (some ({ hosts := ths.map (fun t => hostNum t.2), rounds := ← rs.mapM? parseRound } : Offers), steps)
+        | steps => pure (none, steps))
       let ss ← steps.mapM? (parseStep (ths.map (·.2)))
       match ss with
-      | [] => pure (cfg, { wf := wf, configure := [], steps := [] })
+      | [] => pure (cfg, { wf := wf, configure := [], steps := [] }, offers)
       -- no loss inside NewEnvironment (the harness does not inject there)
-      | .ctl .CONFIGURE outs _ [] :: rest => pure (cfg, { wf := wf, configure := outs, steps := rest })
+      | .ctl .CONFIGURE outs _ [] :: rest => pure (cfg, { wf := wf, configure := outs, steps := rest }, offers)
       | _ => none
     | _ => none
   match x with
   | .list (.atom "legacy" :: rest) => go Cfg.legacy rest   -- by hand only (probe against a tree without the repairs)
   | .list rest => go Cfg.code rest
   | _ => none
+
+/-- The scenario with its offers rounds, as Model/DeployAttempts has it. -/
+def toO (sc : Scenario) (off : Offers) (lost : Option Nat := none) : OScenario :=
+  { wf := { calls := sc.wf.calls,
+            tasks := (sc.wf.tasks.zip (off.hosts ++ List.replicate (sc.wf.tasks.length - off.hosts.length) 0)).map
+              (fun p => { critical := p.1.1, launch := p.1.2, host := p.2 }),
+            rounds := off.rounds, notifyLost := sc.wf.notifyLost, verdictLost := lost },
+    configure := sc.configure, steps := sc.steps }
 
 def rpcName : Rpc → String
   | .ok => "ok" | .err => "err" | .hang => "hang"
@@ -112,7 +144,10 @@ def obsSx (o : Obs) : SExp :=
   let af := SExp.atom (match o.after with | some s => s.name | none => "gone")
   let cmd := SExp.list (o.cmd.map SExp.ofNat)
   match o.ev with
-  | none => .list ([.atom "new", .atom (rpcName o.rpc), st, af, cmd] ++ (if o.runningAcked then [.atom "running-acked"] else []))
+  | none => .list ([.atom "new", .atom (rpcName o.rpc), st, af, cmd] ++ (if o.runningAcked then [.atom "running-acked"] else []) ++
+      (match o.att with
+       | some att => [.list (.atom "att" :: att.map (fun l => SExp.list (l.map SExp.ofNat)))]
+       | none => []) ++ (if o.verdictLost then [.atom "verdict-lost"] else []))
   | some e => .list ([.atom "ctl", .atom e.name, .atom (rpcName o.rpc), st, af, cmd] ++
       (if o.lost.isEmpty then [] else [.list (.atom "lost" :: o.lost.map SExp.ofNat)]))
 
@@ -122,7 +157,20 @@ def parseRpc : String → Option Rpc
 def parseSt (s : String) : Option (Option St) :=
   if s == "-" || s == "gone" then some none else (St.parse? s).map some
 
+def parseAtt : SExp → Option (List (List Nat))
+  | .list (.atom "att" :: as) => as.mapM? (fun l => match l with | .list is => is.mapM? SExp.nat? | _ => none)
+  | _ => none
+
 def parseObs : SExp → Option Obs
+  | .list [.atom "new", .atom r, .atom s, .atom a, .list cmd, .list att] => do
+    pure { ev := none, rpc := ← parseRpc r, state := ← parseSt s, after := ← parseSt a, cmd := ← cmd.mapM? SExp.nat?,
+           att := some (← parseAtt (.list att)) }
+  | .list [.atom "new", .atom r, .atom s, .atom a, .list cmd, .atom "running-acked", .list att] => do
+    pure { ev := none, rpc := ← parseRpc r, state := ← parseSt s, after := ← parseSt a, cmd := ← cmd.mapM? SExp.nat?,
+           runningAcked := true, att := some (← parseAtt (.list att)) }
+  | .list [.atom "new", .atom r, .atom s, .atom a, .list cmd, .list att, .atom "verdict-lost"] => do
+    pure { ev := none, rpc := ← parseRpc r, state := ← parseSt s, after := ← parseSt a, cmd := ← cmd.mapM? SExp.nat?,
+           att := some (← parseAtt (.list att)), verdictLost := true }
   | .list [.atom "new", .atom r, .atom s, .atom a, .list cmd] => do
     pure { ev := none, rpc := ← parseRpc r, state := ← parseSt s, after := ← parseSt a, cmd := ← cmd.mapM? SExp.nat? }
   | .list [.atom "new", .atom r, .atom s, .atom a, .list cmd, .atom "running-acked"] => do
@@ -203,11 +251,23 @@ def variant (sc : Scenario) (lossy w : Bool) : Scenario :=
 
 def showObs (os : List Obs) : String := toString (SExp.list (os.map obsSx))
 
+/-- The model's observation of a scenario with offers rounds: the attempts go into the NewEnvironment entry. -/
+def withAtt (att : Option (List (List Nat))) : List Obs → List Obs
+  | o :: os => { o with att := att } :: os
+  | [] => []
+
 def processLine (line : String) : String :=
   match SExp.fields line with
   | [inp, impl] =>
     match (SExp.parse inp).bind parseScenario with
-    | some (cfg, sc) =>
+    | some (cfg, sc0, offers) =>
+      -- offers rounds: the model's acquireTasks first; the rest is evaluated on the workflow it leaves behind
+      let acq := offers.map (fun off => acquire AcqCfg.code (toO sc0 off).wf.descs off.rounds)
+      let sc : Scenario := match offers, acq with
+        | some off, some a => { sc0 with wf := (toO sc0 off).wf.eff a }
+        | _, _ => sc0
+      let att := acq.map (·.attempts)
+      let runM (c : Scenario) : List Obs := withAtt att (run cfg c)
       let implObs : Option (List Obs) := do (← (← SExp.parse impl).list?).mapM? parseObs
       let lw := [(false, false), (false, true), (true, false), (true, true)]
       let cands := lw.map (fun (l, w) => variant sc l w) ++ [{ sc with wf := early sc.wf }]
@@ -221,20 +281,43 @@ def processLine (line : String) : String :=
             if (reqOuts sc k).any (· = .undeliverable) then
               lw.map (fun (l, w) =>
                 let c := variant (mapReq (unsent o.cmd) sc k) l w
-                (c, showObs (restrictLast o.cmd (run cfg c))))
+                (c, showObs (restrictLast o.cmd (runM c))))
             else []
           | none => []
         | none => []
-      let outs := cands.map (fun c => (c, showObs (run cfg c))) ++ lost
-      let chosen := (outs.find? (fun p => p.2 == impl)).getD (variant sc false false, showObs (run cfg (variant sc false false)))
+      -- a verdict lost on its way to acquireTasks (Model/DeployAttempts.lean): only when the harness attests it (goroutine
+      -- dump of the core: acquireTasks still waiting after the request was answered); which attempt's verdict is inferred
+      let implLost := match implObs with
+        | some (o :: _) => o.verdictLost
+        | _ => false
+      let lostCands : List (Scenario × String × Option Nat) :=
+        match offers with
+        | some off =>
+          if implLost then
+            (List.range attemptLimit).map (fun k => (sc0, showObs (runO AcqCfg.code cfg (toO sc0 off (some k))), some k))
+          else []
+        | none => []
+      let outs : List (Scenario × String × Option Nat) :=
+        lostCands ++ cands.map (fun c => (c, showObs (runM c), none)) ++ lost.map (fun p => (p.1, p.2, none))
+      let dflt := variant sc false false
+      let chosen := (outs.find? (fun p => p.2.1 == impl)).getD (dflt, showObs (runM dflt), none)
       let (spec, hyp) :=
         match implObs with
         | none => (false, "-")
         | some os =>
-          match judge chosen.1 os with
+          let verdict := match offers with
+            | none => judge chosen.1 os
+            | some off =>
+              -- the chosen environment choices (requests' outcomes; TASK_RUNNING overtaking / ACTIVE notification
+              -- dropped; a lost verdict) on the scenario as written; what was deployed is judged on the last offers
+              -- round that took place according to the observed attempts
+              let c := chosen.1
+              let scripts : Workflow := if c.wf.notifyLost then early sc0.wf else sc0.wf
+              judgeO (toO { wf := scripts, configure := c.configure, steps := c.steps } off chosen.2.2) os
+          match verdict with
           | none => (true, "-")
           | some h => (false, h)
-      s!"{chosen.2}\t{if spec then 1 else 0}\t{hyp}"
+      s!"{chosen.2.1}\t{if spec then 1 else 0}\t{hyp}"
     | none => "BADINPUT\t0\t-"
   | _ => "BADLINE\t0\t-"
 
